@@ -31,6 +31,15 @@ theorem sumW_lt {f g : Wid → Nat} {l : List Wid} {w : Wid} (h : ∀ x ∈ l, f
     · have := ih (fun x hx => h x (by simp [hx])) hw'
       simp; omega
 
+theorem sumW_pos_of_mem {f : Wid → Nat} {l : List Wid} {w : Wid} (hw : w ∈ l) (hpos : 0 < f w) :
+    0 < sumW f l := by
+  induction l with
+  | nil => simp at hw
+  | cons a l ih =>
+    rcases List.mem_cons.1 hw with rfl | hw'
+    · simp; omega
+    · have := ih hw'; simp; omega
+
 theorem sumW_congr {f g : Wid → Nat} {l : List Wid} (h : ∀ x ∈ l, f x = g x) : sumW f l = sumW g l := by
   apply Nat.le_antisymm
   · exact sumW_le (fun x hx => Nat.le_of_eq (h x hx))
@@ -360,14 +369,18 @@ theorem effect_miss {φ : Key → Bool} {s s' : State} {k : Key} {e : Ev}
   rename_i hg
   refine measureOn_frame (by simp [handW, hg.2.1, hφ]) rfl rfl (fun x _ => rfl)
 
+theorem effect_cancel_aux {φ : Key → Bool} {s s' : State} (hpc : s'.pc = s.pc) (hst : s'.streams = s.streams)
+    (hp : s'.pendingQ = s.pendingQ) (hr : s'.running = s.running) (hh : s'.hand = none) :
+    measureOn φ s' ≤ measureOn φ s := by
+  have e1 : instW s' = instW s := by funext x; simp [instW, hpc, hst]
+  have : handW φ s' = 0 := by simp [handW, hh]
+  simp only [measureOn, hp, hr, e1, this]
+  omega
+
 theorem effect_cancel {φ : Key → Bool} {s s' : State} (h : step s .cancelWatcher = some s') :
     measureOn φ s' ≤ measureOn φ s := by
   step_cases h
-  have : handW φ { s with closing := true, hand := none } ≤ handW φ s := by simp [handW]
-  unfold measureOn
-  have e1 : instW { s with closing := true, hand := none } = instW s := rfl
-  simp only [e1]
-  omega
+  exact effect_cancel_aux rfl rfl rfl rfl rfl
 
 theorem effect_close {φ : Key → Bool} {s s' : State} (h : step s .close = some s') :
     measureOn φ s' = measureOn φ s ∧ s.closed = false ∧ s'.closed = true := by
